@@ -293,14 +293,14 @@ def d11_6(ctx):
                         p = attr_path(t)
                         if p in ("self._session", "self._target_cid"):
                             writers[p[5:]].append((f"{c.name}.{m.name}", src(n.value) if n.value is not None else None))
-    allowed = {
-        "_session": {("CIPDriver.__init__", "0"), ("CIPDriver._register_session", "response.session"), ("CIPDriver.close", "0"), ("CIPDriver._un_register_session", "None")},
-        "_target_cid": {("CIPDriver.__init__", "None"), ("CIPDriver._forward_open", "response.value[:4]")},
-    }
+    # a write is a reset (the constant the constructor starts with: nothing was granted) or a grant (a value taken from the
+    # reply of the registering / opening request); which method holds the reset statements does not matter
     for attr, ws in writers.items():
-        extra = [w for w in ws if w not in allowed[attr]]
-        grant = [w for w in ws if w in allowed[attr] and w[1].startswith("response.")]
-        ctx.check(not extra and grant, ckey(drv.key, f"writers:{attr}"), drv.node, f"self.{attr} is written only by the grant/reset sites", f"self.{attr} has writers {extra or ws} besides the grant ({sorted(allowed[attr])})", writers=ws)
+        init_v = {"_session": ("0", "None"), "_target_cid": ("None",)}[attr]
+        extra = [w for w in ws if not (w[1] in init_v or (w[1] or "").startswith("response."))]
+        grant = [w for w in ws if (w[1] or "").startswith("response.")]
+        ctx.check(not extra and grant, ckey(drv.key, f"writers:{attr}"), drv.node, f"self.{attr} is written only by resets ({' / '.join(init_v)}) and by the grant taken from the reply",
+                  f"self.{attr} has writers {extra or ws} that are neither a reset nor a value granted by the target", writers=ws)
 
 
 @rule(P, "D11.7", "T-PASS", floor=2)
@@ -341,3 +341,11 @@ def d11_7(ctx):
 from .C10 import d10_2 as _d10_2  # noqa: E402
 
 rule(P, "D11.8", "T-ABSTRACT-EXEC", floor=4)(_d10_2)
+
+
+# the session handle and connection id a frame carries are the ones granted in this session: the grant (Forward Open reply ->
+# target connection id) and the reset of both on every exit of close() are obligations of this property too
+from .driver import _close_rule as _close_rule_, _forward_open_rule as _forward_open_rule_  # noqa: E402
+
+rule(P, "D11.9", "T-WITNESS", floor=6)(_forward_open_rule_)
+rule(P, "D11.10", "T-WITNESS", floor=20)(_close_rule_)
